@@ -39,6 +39,10 @@ def urls():
         ('odvod-file-big', '/dash/odvod/bbb/bbb_t1.mp4', ('bbb', 'bbb_t1')),
         ('mps-number', '/mps/vod/testmps/{ppk}/bbb_v7/2.m4v', None),
         ('vod-number-big', '/dash/vod/bbb/bbb_v7/3.m4v', None),
+        # segments that the service post-processes after encoding (corruption rewrites bytes inside mdat, events add boxes)
+        ('vod-number-corrupted', '/dash/vod/bbb/bbb_v7/4.m4v?vcorrupt=4&frames=2', None),
+        ('vod-number-events', '/dash/vod/bbb/bbb_v7/2.m4v?events=ping&ping__interval=500', None),
+        ('live-number-cenc-corrupted', '/dash/live/bbb/bbb_v7_enc/20.m4v?drm=all&vcorrupt=20&start=2024-03-01T11:58:00Z', None),
     ]
 
 
